@@ -152,11 +152,12 @@ pub fn decode_hex(data: &[u8]) -> Result<Vec<u8>> {
     Ok(out)
 }
 pub fn encode_hex(data: &[u8]) -> Vec<u8> {
-    let mut buf = Vec::with_capacity(data.len() * 2);
+    let mut buf = Vec::with_capacity(data.len() * 2 + 1);
     for &b in data {
         buf.push(encode_nibble(b >> 4));
         buf.push(encode_nibble(b & 0xf));
     }
+    buf.push(b'>'); // EOD
     buf
 }
 
